@@ -11,7 +11,8 @@ out=$d/.pseed.out
   echo "#### $d"
   /verif/tools/confirm_seed.sh "$d"
   git -C /repo worktree remove --force $wt >/dev/null 2>&1
-  git -C /repo worktree add --detach $wt HEAD >/dev/null 2>&1 || { echo "WORKTREE FAILED"; exit 0; }
+  ok=0; for try in 1 2 3 4 5 6 7 8; do git -C /repo worktree add --detach $wt HEAD >/dev/null 2>&1 && { ok=1; break; }; sleep 1; git -C /repo worktree prune >/dev/null 2>&1; done
+  [ $ok = 1 ] || { echo "WORKTREE FAILED"; exit 0; }
   if git -C $wt apply "$d/patch.diff" 2>/dev/null; then
     mkdir -p $ev
     for p in C01 C02 C03 C04 C05 C06 C07 C08 C09 C10 C11 C12 C13 C14 C15 C16 C17 C18 C19 C20; do
